@@ -17,8 +17,9 @@ func init() {
 		Title: "Each broker call gets its own response or an error",
 		Explain: "Decides on every path of broker.go: send reads the correlation id, writes the request, increments the id and enqueues the promise inside one critical section of Broker.lock, the promise carrying the id that was written (C14.lock); the receive loop gives every promise exactly one outcome (C14.one-outcome), a packet only when both reads and the header decode succeeded and the header id equals the promise's (C14.correlation), and every error makes the failure sticky for all later promises (C14.dead); " +
 			"the in-flight slot (the bounded responses queue, capacity MaxOpenRequests-1) should be taken before the request is written (C14.slot — violated on the pinned tree, known finding F7); all connection reads/writes go through readFull/write, which set the deadline first (C14.deadline); sendAndReceive returns only after receiving from the promise (C14.await). " +
+			"Shared with C10: the response header length is checked before anything else is believed, so that the body buffer size computed from it cannot be negative (C10.cap). " +
 			"NOT covered: server behaviours, Close racing with in-flight calls, fairness between callers.",
-		Rules: []func(*Ctx){c14Lock, c14OneOutcome, c14Slot, c14Deadline, c14Await},
+		Rules: []func(*Ctx){c14Lock, c14OneOutcome, c14Slot, c14Deadline, c14Await, c10Cap},
 	})
 }
 
